@@ -154,3 +154,21 @@ Proof.
   - apply andb_true_iff in H1. exact H1.
   - apply andb_true_iff in H2. exact H2.
 Qed.
+
+(* ---- the finding line ranges: every statement whose line lies in a reported range is dead (bounded) ----
+   After [renumber] the ids are consecutive in source order, i.e. they are the line numbers of a layout with one
+   statement header per line; [end_stmt] is then the last line of a compound statement. *)
+Definition all_ids (b : block) : list N := ids_block b.
+
+Definition ranges_ok (b : block) : bool :=
+  let g := build b in
+  let dead := dead_ids b in
+  let el := elif_block b in
+  forallb (fun r => forallb (fun k => if N.leb (fst r) k && N.leb k (snd r) then mem k dead || mem k el else true) (all_ids b))
+          (dead_ranges g).
+
+Definition check_ranges (b : block) : bool :=
+  (if lok_block false b then ranges_ok b else true) && (if lok_block true b then ranges_ok (in_loop b) else true).
+
+Theorem ranges_cover_only_dead_bounded : forallb check_ranges all_bodies = true.
+Proof. vm_compute. reflexivity. Qed.
